@@ -63,6 +63,9 @@ def gen_c09_file(rnd):
                 atoms.append(f'normalized({q}{w}{q})')
             else:
                 atoms.append(rnd.choice([f'{q}{w}{q} in description', 'startswith({0}{1}{0})'.format(qof(D[0]), D[0]), gen_atom(rnd, [])]))
+        if rnd.random() < 0.15:          # function names are case-insensitive in the expression language
+            style = rnd.choice([str.upper, str.title])
+            atoms = [re.sub(r'^(contains|regex|normalized|startswith|anyof)\(', lambda m: style(m.group(1)) + '(', a) for a in atoms]
         atoms += rnd.sample(CONSTRAINTS, rnd.choice([0, 0, 1, 1, 2]))
         r = {'name': f'R{i}', 'match': ' and '.join(atoms), 'category': '', 'subcategory': '', 'merchant': '', 'tags': gen_tags(rnd),
              'priority': rnd.choice(prios), 'lets': [], 'fields': []}
@@ -122,6 +125,14 @@ def gen_cases(seed, tier):
             for order in ((0, 1, 2), (2, 1, 0), (1, 0, 2)):
                 cases.append({'kind': 'rules', 'file': {'vars': [], 'tfs': [], 'rules': [rs[i] for i in order]},
                               'txns': [tx('COSTCO GAS #0123 KIRKLAND')]})
+    # corpus: pattern functions spelled in upper / mixed case count as pattern conditions like lower-case ones
+    for a, b, d in (('CONTAINS("UBER") and Contains("EATS")', 'contains("UBER EATS O")', 'UBER EATS ORDER'),
+                    ('REGEX("COSTCO") and amount > 200', 'contains("COSTCO")', 'COSTCO WHSE 123'),
+                    ('AnyOf("UBER", "LYFT") and STARTSWITH("UBER")', 'normalized("UBEREATSORDER77")', 'UBER EATS ORDER 77'),
+                    ('Normalized("UBEREATS") and FUZZY("UBER EATS")', 'contains("UBER EATS ORDER 7")', 'UBER EATS ORDER 77')):
+        for order in ((0, 1), (1, 0)):
+            rs = [blk('Mixed Case', a, 'Food', 'Delivery'), blk('Lower', b, 'Transport', 'Rideshare')]
+            cases.append({'kind': 'rules', 'file': {'vars': [], 'tfs': [], 'rules': [rs[i] for i in order]}, 'txns': [tx(d)]})
     # corpus: every matching rule ranks at or below zero (negative priorities, the all-zero tuple), for category, subcategory
     # and merchant separately, every order of the first two
     for order in ((0, 1, 2), (1, 0, 2)):
